@@ -46,14 +46,19 @@ theorem mirror_isNull (c : Str) : mir isD (.compare .eq (idE c) (.lit .null []))
     some (.bin (S "IS") (.col none c) (.kw (S "NULL"))) := rfl
 theorem mirror_isNotNull (c : Str) : mir isD (.compare .ne (idE c) (.lit .null [])) =
     some (.bin (S "ISNOT") (.col none c) (.kw (S "NULL"))) := rfl
-theorem mirror_compare (op : CmpOp) (l r : Expr) (hop : op ≠ .in_) (hr : isNullLit r = false) :
+theorem mirror_compare (op : CmpOp) (l r : Expr) (hop : op ≠ .in_) (hl : isNullLit l = false)
+    (hr : isNullLit r = false) :
     mir isD (.compare op l r) =
       (mir isD l).bind (fun l' => (mir isD r).bind (fun r' => some (.bin (cmpName op) l' r'))) := by
+  have hl' : ∀ v, l ≠ .lit .null v := by intro v h; subst h; simp [isNullLit] at hl
+  have hr' : ∀ v, r ≠ .lit .null v := by intro v h; subst h; simp [isNullLit] at hr
   cases op <;> first
     | exact absurd rfl hop
-    | (cases r <;> first
-        | rfl
-        | (rename_i k v; cases k <;> first | rfl | exact absurd hr (by simp [isNullLit])))
+    | (simp only [mir, mirror]
+       cases mirror isD .sqlite none l <;> cases mirror isD .sqlite none r <;>
+         first
+         | rfl
+         | (split <;> first | rfl | exact absurd rfl (hl' _) | exact absurd rfl (hr' _)))
 theorem mirror_length (a : Expr) : mir isD (.call ⟨"length".toList, []⟩ (.cons a .nil)) =
     (mir isD a).bind (fun t => some (.call (S "LENGTH") (one t))) := rfl
 theorem mirror_tolower (a : Expr) : mir isD (.call ⟨"tolower".toList, []⟩ (.cons a .nil)) =
